@@ -158,10 +158,25 @@ func (fl *File) Position(idx Idx) *Position {
 	}
 
 	if fl.sm != nil {
-		if f, _, l, c, ok := fl.sm.Source(position.Line, position.Column); ok {
+		if f, l, c, ok := fl.mappedSource(position.Line, position.Column); ok {
 			position.Filename, position.Line, position.Column = f, l, c
 		}
 	}
 
 	return position
+}
+
+// mappedSource asks the source map for the original position. The map comes
+// with the source text (an inline //# sourceMappingURL=data: comment is
+// honoured in any script) and the consumer indexes its tables unchecked: a
+// mapping that names a source or name that is not there must leave the
+// position unmapped, not panic out of Error() / stack formatting.
+func (fl *File) mappedSource(line, column int) (source string, l, c int, ok bool) {
+	defer func() {
+		if recover() != nil {
+			ok = false
+		}
+	}()
+	source, _, l, c, ok = fl.sm.Source(line, column)
+	return source, l, c, ok
 }
